@@ -16,6 +16,7 @@ import (
 	"runtime"
 	"runtime/debug"
 	"slices"
+	"sync"
 	"strings"
 
 	"golang.org/x/tools/go/ssa"
@@ -66,6 +67,7 @@ type Machine struct {
 	initSteps  int
 	inInit     bool
 
+	fnSize   map[*ssa.Function]int
 	funcsHit map[*ssa.Function]int // executed functions (instruction counts) for evidence
 	stubsHit map[string]int
 
@@ -75,6 +77,11 @@ type Machine struct {
 	clockSymbolic  bool
 	asyncTimerChan bool
 	reportInReplay bool
+	witnessDone    *sync.Map
+	NoDomain       bool
+	lastIf         *ssa.If
+	forkSites      map[string]int
+	domainHits     int
 	denyInit       map[string]bool
 }
 
@@ -256,6 +263,7 @@ func visitInstr(fr *frame, instr ssa.Instruction) continuation {
 
 	case *ssa.If:
 		succ := 1
+		m.lastIf = instr
 		if m.truth(fr.get(instr.Cond)) {
 			succ = 0
 		}
@@ -569,7 +577,19 @@ func runFunc(fr *frame, fn *ssa.Function, args []value, env []value) value {
 	if i.funcsHit != nil && i.ps != nil {
 		i.funcsHit[fn]++
 	}
-	fr.env = make(map[ssa.Value]value)
+	nv, ok := i.fnSize[fn]
+	if !ok {
+		nv = len(fn.Params) + len(fn.FreeVars) + len(fn.Locals)
+		for _, b := range fn.Blocks {
+			for _, ins := range b.Instrs {
+				if _, isV := ins.(ssa.Value); isV {
+					nv++
+				}
+			}
+		}
+		i.fnSize[fn] = nv
+	}
+	fr.env = make(map[ssa.Value]value, nv)
 	fr.block = fn.Blocks[0]
 	fr.locals = make([]value, len(fn.Locals))
 	for i, l := range fn.Locals {
